@@ -308,6 +308,52 @@ func c18Upload(c *Ctx, pr *PropertyRun, prop string) {
 			case *ssa.Send:
 				if chanRoot(x.Chan) == ssa.Value(chFV) {
 					sendsIn[b]++
+					// what is sent: nil, or a failure reported by a call — a
+					// send of anything else makes Close fail although the
+					// request layer accepted the answer (2xx)
+					r.Role("sent-value")
+					okv := isNilConst(x.X)
+					if !okv {
+						// dominated by the non-nil edge of a test of an error
+						// returned by a call
+						for _, tb := range body.Blocks {
+							cond := ifCond(tb)
+							bin, isBin := cond.(*ssa.BinOp)
+							if !isBin || (bin.Op != token.NEQ && bin.Op != token.EQL) {
+								continue
+							}
+							var ev ssa.Value
+							if isNilConst(bin.Y) {
+								ev = bin.X
+							} else if isNilConst(bin.X) {
+								ev = bin.Y
+							}
+							if ev == nil || !isErrorType(ev.Type()) {
+								continue
+							}
+							fromCall := false
+							switch e := ev.(type) {
+							case *ssa.Call:
+								fromCall = true
+							case *ssa.Extract:
+								_, fromCall = e.Tuple.(*ssa.Call)
+							}
+							if !fromCall {
+								continue
+							}
+							edge := 0
+							if bin.Op == token.EQL {
+								edge = 1
+							}
+							if edgeDominates(tb, edge, b) {
+								okv = true
+							}
+						}
+					}
+					r.Ob(okv)
+					if !okv {
+						r.Violation("sent-failure-without-error|"+fnKey(body), p.instrPos(x), "the upload goroutine sends a non-nil value on the done channel on a path where no call has reported an error: Close returns a failure although the request layer accepted the answer (2xx)", nil)
+					}
 				} else {
 					r.Ob(false)
 					r.Violation("other-send|"+fnKey(body), p.instrPos(x), "the upload goroutine sends on another channel: it may block forever", nil)
@@ -460,7 +506,7 @@ func c18Upload(c *Ctx, pr *PropertyRun, prop string) {
 			escapes := false
 			var visit func(v ssa.Value, depth int)
 			visit = func(v ssa.Value, depth int) {
-				if depth > 4 {
+				if depth > 7 {
 					return
 				}
 				for _, ref := range refsOf(v) {
@@ -499,6 +545,22 @@ func c18Upload(c *Ctx, pr *PropertyRun, prop string) {
 										escapes = true
 									case *ssa.Extract:
 										visit(y, depth+1)
+									}
+								}
+								// a result that can alias the object's memory
+								// (buf.Bytes(), bytes.NewReader(...)) is the
+								// object as far as the pool is concerned
+								if bi, isB := x.Common().Value.(*ssa.Builtin); isB {
+									// append(dst, v...) copies v's elements:
+									// only the destination (first argument)
+									// is aliased by the result
+									if bi.Name() != "append" || x.Common().Args[0] != v {
+										continue
+									}
+								}
+								if x.Type() != nil && mayHoldPointer(x.Type()) && !isErrorType(x.Type()) {
+									if _, isTuple := x.Type().(*types.Tuple); !isTuple {
+										visit(x, depth+1)
 									}
 								}
 							}
